@@ -53,7 +53,7 @@ class Ctx:
     def note(self, msg):
         self.notes.append(msg)
 
-    def include(self, module, rules, as_rule, why):
+    def include(self, module, rules, as_rule, why, select=None):
         """Decide rules of another property's module here as well (the same construct carries both properties).  The other
         module is run on a child context; the instances and violations of the listed rule ids are re-recorded under
         `as_rule` (e.g. "R1.8") with the original id kept in the instance text / key.  Known findings of the *other*
@@ -66,12 +66,13 @@ class Ctx:
         child._incl_stack = stack + [module.__name__]
         module.run(child)
         n = 0
+        sel = (lambda k: True) if select is None else (lambda k: select(k if isinstance(k, str) else json.dumps(k)))
         for r, w, i, nt in child.instances:
-            if r in rules:
+            if r in rules and sel(i):
                 n += 1
                 self.instances.append((as_rule, w, f"[{r}] {i if isinstance(i, str) else json.dumps(i)}", nt))
         for v in child.viol:
-            if v["rule"] in rules:
+            if v["rule"] in rules and sel(v["key"]):
                 n += 1
                 self.violation(as_rule, v["where"], v["key"], f"{why}: {v['msg']}")
         for f in child.floors:
